@@ -167,5 +167,14 @@ pub(crate) fn parse_expr(
     tokens: TokenStream,
 ) -> Option<ptr::P<ast::Expr>> {
     let mut parser = build_parser(context, tokens);
-    parser.parse_expr().ok()
+    match parser.parse_expr() {
+        Ok(expr) => Some(expr),
+        // A diagnostic that is neither emitted nor cancelled panics when it is dropped, and
+        // `convert_try` calls this outside of any `catch_unwind`.
+        Err(diag) => {
+            diag.cancel();
+            parser.psess.dcx().reset_err_count();
+            None
+        }
+    }
 }
